@@ -89,3 +89,14 @@ PROPS['C08'] = {
     'outside': ['N > 8'],
     'assumptions': [],
 }
+
+PROPS['C09'] = {
+    'kani': {
+        'quick': [krun(['c09::q::'], timeout=900, bounds='N <= 5, element sizes 0/1/8/24 bytes, symbolic contents, symbolic index; split at K in {0,1,2,4}; remove/swap_remove with every idx < N, and every idx >= N (must panic)')],
+        'thorough': [krun(['c09::'], timeout=2400, bounds='N <= 8 plus 15,16,17,33; more (N,K) pairs')],
+    },
+    'functions': ['Lengthen::{append,prepend}', 'Shorten::{pop_back,pop_front}', 'Split::split (owned, &, &mut)', 'Concat::concat', 'Remove::{remove,swap_remove,remove_unchecked,swap_remove_unchecked}'],
+    'bounds': 'K: concrete (T,N,K) instantiations; contents, indices and the operation selector symbolic; CBMC pointer checks cover out-of-bounds reads.',
+    'outside': ['drop accounting on the idx >= N panic path (needs unwinding: engine M)', 'lengths outside the lattice'],
+    'assumptions': [],
+}
